@@ -13,4 +13,5 @@ import DateutilVerif.Properties.C11
 #print axioms C11.nested_no_deadlock_init
 #print axioms C11.nested_progress_partial
 #print axioms C11.nested_exec_bound
-#print axioms C11.genraise_cached_differs
+#print axioms C11.specE_eq_uncached
+#print axioms C11.genraise_history
